@@ -60,8 +60,12 @@ class PestGrammarError(Exception):
                 target_line_index = i
                 break
 
+        if not lines:
+            return 1, 0, "", "", ""
+
         if target_line_index == -1:
-            raise ValueError("index is out of bounds for the given string")
+            # The end of the text.
+            target_line_index = len(lines) - 1
 
         # Line number (1-based)
         line_number = target_line_index + 1
